@@ -636,7 +636,7 @@ class StubsStringGenerator:
                     type_string = ": Map<String, Any>"
 
             # Check if assigned_by is not illegal
-            if assigned_by == ParameterAssignment.POSITION_ONLY and parameter.default_value is not None:
+            if assigned_by == ParameterAssignment.POSITION_ONLY and parameter.is_optional:
                 self._current_todo_msgs.add("OPT_POS_ONLY")
             elif assigned_by == ParameterAssignment.NAME_ONLY and not parameter.is_optional:
                 self._current_todo_msgs.add("REQ_NAME_ONLY")
